@@ -21,7 +21,8 @@ class Ref(object):
 
 def make_reference(out_dir, L=2, shape=None, n_leaves=7, cells_per=3,
                    n_genes=8, seed=0, scheme='B', n_files=1,
-                   encoding='dense', unlabeled=0, cell_counts=None):
+                   encoding='dense', unlabeled=0, cell_counts=None,
+                   profile_shift=0):
     """
     Block-structured, separable raw-count data.  Returns a Ref with
       paths, x (dense, all cells in file order), cell_ids, labels
@@ -49,12 +50,14 @@ def make_reference(out_dir, L=2, shape=None, n_leaves=7, cells_per=3,
         cell_counts = [cells_per + (i % 2) for i in range(n_leaves)]
     rows = []
     labels = []
-    for i, leaf in enumerate(leaves):
+    for i0, leaf in enumerate(leaves):
+        # profile_shift: same names, the signatures move to other clusters
+        i = (i0 + profile_shift) % n_leaves
         base = np.full(n_genes, 2.0)
         base[i % n_genes] = 400.0 + 37 * i
         base[(i * 3 + 1) % n_genes] = 90.0 + 11 * i
         base[(i * 5 + 2) % n_genes] = 0.0
-        for c in range(cell_counts[i]):
+        for c in range(cell_counts[i0]):
             v = np.round(base * (0.7 + 0.6 * rng.uniform(size=n_genes)))
             rows.append(v)
             labels.append(leaf)
